@@ -9,7 +9,7 @@ import shutil
 from . import core, si, sysgen, trajgen, engine_build, child, fingerprint, dictgen, translate_schemas
 from .core import g_float, g_list, g_bool, g_codepoints
 
-IMPORTS = "AcceptC04 AcceptC12"
+IMPORTS = "Units ReactionText ObjDict AcceptC04 AcceptC12"
 
 # the key aliases each reader accepts (first = the key the writers use): read from /repo's current source by the translator
 try:
@@ -294,6 +294,129 @@ def build_items(cases, run=None):
     return items
 
 
+
+# ------------------------------------------------------------------------------ object level: the species writer and reader
+DIM_D, DIM_DENS = (2, -1, 0), (-3, 0, 1)
+
+
+def make_species_case(rng):
+    """a species whose quantities are stated as text in random units; D and density single or per environment (with 'default')"""
+    envs = ["e0", "e1", "cyt", "default"]
+
+    def qty(dim):
+        v = rng.choice([0.0, 1.0, 2.5, 0.1, 1e-3, 12345.678, 3e8, 7.25e-12, float(rng.randint(1, 999))])
+        return {"v": v, "sys": list(sysgen.rand_sys(rng)), "dim": list(dim)}
+
+    def envq(dim):
+        if rng.random() < 0.5:
+            return {"scalar": qty(dim)}
+        ks = rng.sample(envs, rng.randint(1, 3))
+        return {"dict": [[k, qty(dim)] for k in ks]}
+    chs = {"scalar": rng.random() < 0.5} if rng.random() < 0.6 else {"dict": [[k, rng.random() < 0.5] for k in rng.sample(envs, rng.randint(1, 3))]}
+    return {"label": rng.choice(["A", "B2", "ATP", "x_y", "Ca2"]), "D": envq(DIM_D), "dens": envq(DIM_DENS), "chstt": chs,
+            "units": list(sysgen.rand_sys(rng)), "parent": list(sysgen.rand_sys(rng)), "alias_seed": rng.randrange(2 ** 30)}
+
+
+def _qtext(q):
+    return "%r %s" % (float(q["v"]), si.units_str(q["sys"], q["dim"]))
+
+
+def observe_species(c):
+    import strengths
+    import strengths.rdnetwork as rn
+    U = strengths.units
+
+    def arg(ev):
+        return _qtext(ev["scalar"]) if "scalar" in ev else {k: _qtext(q) for k, q in ev["dict"]}
+    chs = c["chstt"]["scalar"] if "scalar" in c["chstt"] else {k: b for k, b in c["chstt"]["dict"]}
+    try:
+        s = strengths.Species(label=c["label"], D=arg(c["D"]), density=arg(c["dens"]), chstt=chs, units_system=sysgen.py_sys(U, c["units"]))
+        written = rn.species_to_dict(s)
+    except Exception as e:
+        return {"error": "%s: %s" % (type(e).__name__, str(e)[:100])}
+    parent = sysgen.py_sys(U, c["parent"])
+    rng = random.Random(c["alias_seed"])
+    variants = [["as_written", copy.deepcopy(written)]]
+    for syn in ALIASES.get("species", []):
+        if syn[0] in written and len(syn) > 1 and rng.random() < 0.5:
+            v = copy.deepcopy(written)
+            v[rng.choice(syn[1:])] = v.pop(syn[0])
+            variants.append(["alias:" + syn[0], v])
+    for key in ("D", "density", "chstt", "units"):
+        if rng.random() < 0.4:
+            v = copy.deepcopy(written)
+            del v[key]
+            variants.append(["omitted:" + key, v])
+    v = copy.deepcopy(written)
+    v["units"] = rng.choice(["inherit", "default"])
+    variants.append(["units:" + v["units"], v])
+    out = []
+    for label, v in variants:
+        try:
+            out.append([label, v, rn.species_to_dict(rn.species_from_dict(copy.deepcopy(v), parent))])
+        except Exception as e:
+            out.append([label, v, {"raised": type(e).__name__}])
+    return {"written": written, "variants": out}
+
+
+def g_jv(v):
+    if isinstance(v, bool):
+        return "(JBool %s)" % g_bool(v)
+    if isinstance(v, str):
+        return "(JStr %s)" % g_codepoints(v)
+    if isinstance(v, dict):
+        return "(JObj %s)" % g_list(["(%s, %s)" % (g_codepoints(k), g_jv(x)) for k, x in v.items()])
+    raise ValueError("value outside the modelled JSON fragment: %r" % (v,))
+
+
+def emit_species(c, o):
+    def gq(q):
+        return "(%s, (%s, %s))" % (g_codepoints(repr(float(q["v"]))), si.g_usys(q["sys"]), si.g_dim(q["dim"]))
+
+    def gev(ev, leaf):
+        if "scalar" in ev:
+            return "(EScalar _ %s)" % leaf(ev["scalar"])
+        return "(EDict _ %s)" % g_list(["(%s, %s)" % (g_codepoints(k), leaf(x)) for k, x in ev["dict"]])
+    gs = "(Build_species_obj str %s %s %s %s %s)" % (
+        g_codepoints(c["label"]), gev(c["D"], gq), gev(c["dens"], gq), gev(c["chstt"], g_bool), si.g_usys(c["units"]))
+    gc = "((%s : sp_obj), %s)" % (gs, si.g_usys(c["parent"]))
+    if "error" in o:
+        return gc, "(JBool false, [])"
+    go = "(%s, %s)" % (g_jv(o["written"]), g_list(["(%s, %s)" % (g_jv(v), g_jv(w)) for _, v, w in o["variants"]]))
+    return gc, go
+
+
+def oracle_species(it):
+    """model-independent: reading what was written and writing again gives the same dictionary; a renamed key or an omitted default changes
+    nothing but that field"""
+    o = it["obs"]
+    name = "species_to_dict -> species_from_dict -> species_to_dict is the identity; aliases are interchangeable; omitted keys take the defaults"
+    if "error" in o:
+        return False, name + " [%s]" % o["error"]
+    for label, v, w in o["variants"]:
+        if "raised" in w:
+            return False, name + " [variant %s was rejected: %s]" % (label, w["raised"])
+        if label == "as_written" or label.startswith("alias:"):
+            if w != o["written"]:
+                return False, name + " [variant %s reads back differently]" % label
+    return None, name
+
+
+def species_items(cases):
+    obs = child.map_children("c12", "observe_species", cases, timeout=60)
+    items = []
+    for c, o in zip(cases, obs):
+        if "timeout" in o or "crash" in o:
+            o = {"error": "timeout or crash"}
+        try:
+            gc, go = emit_species(c, o)
+        except ValueError as e:
+            o = {"error": str(e)}
+            gc, go = emit_species(c, o)
+        items.append({"case": c, "obs": o, "gcase": gc, "gobs": go, "nontrivial": "error" not in o})
+    return items
+
+
 def check(run):
     rng = random.Random(run.seed)
     sysgen.POOLS["space"] = ["cm", "mm", "dmm", "cmm", "µm", "nm", "dm"]
@@ -318,8 +441,18 @@ def check(run):
                 "geometry, flags, unit systems, sampling parameters, mode, seed, times, data) of each result is compared with the original's in "
                 "Coq. non-trivial = at least two round trips were possible")
     core.decide(run, items, IMPORTS, "accept_C12", oracle, shard=30)
+    # object level: the modelled species writer / reader against species_to_dict / species_from_dict, dictionary for dictionary
+    ns = 120 if run.tier == "quick" else 3000
+    sitems = species_items([make_species_case(rng) for _ in range(ns)])
+    for it in sitems:
+        for label, _, _ in it["obs"].get("variants", []):
+            run.count("species_variant:" + label.split(":")[0])
+    core.decide(run, sitems, IMPORTS, "accept_C12_species", oracle_species, shard=40)
 
 
 def replay(run, payload):
     sysgen.POOLS["space"] = ["cm", "mm", "dmm", "cmm", "µm", "nm", "dm"]
+    if payload.get("correspondence") == "accept_C12_species":
+        core.decide(run, species_items([payload["case"]]), IMPORTS, "accept_C12_species", oracle_species)
+        return
     core.decide(run, build_items([payload["case"]]), IMPORTS, "accept_C12", oracle)
